@@ -292,7 +292,7 @@ pub fn run_values(kind: Kind, n: usize, values: &[BigInt], all_forms_at_boundari
     ctx.label(format!("{}:accepted", kind.letter()));
     let mut evals = 0u64;
     let mut result = Verdict::Pass;
-    let mut judge = |ctx: &mut CaseCtx, f: Failure| -> Option<Verdict> { ctx.judge(f.clause, f.detail) };
+    let judge = |ctx: &mut CaseCtx, f: Failure| -> Option<Verdict> { ctx.judge(f.clause, f.detail) };
     // accepted values: in one batch
     let mut neighbours_usable = true;
     if let Some(f) = check_accepted(kind, n, &accepted, &mut evals) {
